@@ -35,6 +35,7 @@ opkinds! {
     SliceReplace = 12, "SliceReplace"; // a = route, b = i
     VObserve = 13, "VObserve";         // a = Debug|Hash|Eq|Display, f = observe-panic k
     VMap = 14, "VMap";                 // a = 0 map(f) | 1 zip(w).map(f) | 2 map2(w, f), identity-like f; f = closure-panic k
+    VClone = 16, "VClone";             // let c = v.clone(); drop(c)  (derive(Clone) on the container; f = panic in the f-th element clone)
     VFromSlice = 15, "VFromSlice";     // V::<u32>::from_slice(&s[..a]) (Copy elements: order and default fill only)
     // ---- on the consuming iterator ----
     Next = 20, "Next";                 // b = 1 keep in bag, 0 drop at once
@@ -82,6 +83,7 @@ opkinds! {
     MIndex = 72, "MIndex";             // m[(i,j)], b = i | j<<8 ; a bit0 = replace through IndexMut
     MTakeLines = 73, "MTakeLines";     // M -> its public `rows` / `cols` vector-of-vectors (then vector ops apply)
     MMapRows = 74, "MMapRows";         // map_rows / map_cols with an identity closure that may panic (f)
+    MClone = 76, "MClone";             // let c = m.clone(); drop(c); f = panic in the f-th element clone
     MObserve = 75, "MObserve";         // a = Debug|Hash|Eq|Display on the matrix, f = observe-panic k
 }
 
@@ -146,11 +148,11 @@ pub struct Plan {
     pub kind: usize,
     /// false = clean class (no fault annotations at all), true = fault-injecting class
     pub faulty: bool,
-    /// element shape for vector kinds: 0 = `Tok` (8 bytes, align 4), 1 = `Wide` (16 bytes, align 16)
+    /// element shape for vector kinds: 0 = `Tok` (8 bytes, align 4), 1 = `Wide` (16 bytes, align 16), 2 = `Plain` (no drop glue)
     pub elem: u8,
     pub ops: Vec<Op>,
 }
-pub const ELEM_NAMES: [&str; 2] = ["Tok", "Wide16"];
+pub const ELEM_NAMES: [&str; 3] = ["Tok", "Wide16", "PlainNoDrop"];
 
 /// The std-provided `Iterator` / `DoubleEndedIterator` methods driven through `it.by_ref()`
 /// (operation `Adapt`). A realistic change is overriding one of them "for speed".
